@@ -64,18 +64,18 @@ def _reads_handle(node: ast.AST, handle: str) -> List[ast.Call]:
 
 
 def run(ctx: Ctx):
-    r12_1(ctx)
-    r12_2(ctx)
-    r12_2b(ctx)
-    r12_3(ctx)
-    r12_4(ctx)
+    ctx.attempt("R12.1", lambda: r12_1(ctx))
+    ctx.attempt("R12.2", lambda: r12_2(ctx))
+    ctx.attempt("R12.2", lambda: r12_2b(ctx))
+    ctx.attempt("R12.3", lambda: r12_3(ctx))
+    ctx.attempt("R12.4", lambda: r12_4(ctx))
     from .c11 import accessor_branches
-    accessor_branches(ctx, "R12.5", ("SystemGro.__getitem__",))
-    r12_6(ctx)
+    ctx.attempt("R12.5", lambda: accessor_branches(ctx, "R12.5", ("SystemGro.__getitem__",)))
+    ctx.attempt("R12.6", lambda: r12_6(ctx))
     from . import c13
-    c13.r13_6(ctx, rule="R12.6")        # the title line is taken as it is (a blank title is a valid title)
+    ctx.attempt("R12.6", lambda: c13.r13_6(ctx, rule="R12.6"))        # the title line is taken as it is (a blank title is a valid title)
     from ..util import persistent_state
-    persistent_state(ctx, "R12.7", [f_ for f_ in (ctx.repo.func(q_, required=False) for q_ in ('SystemGro.__init__', 'SystemGro.__getitem__', 'SystemGro.__iter__', 'GroFile.seek_atom', 'GroFile.readline')) if f_ is not None], "the coordinate-file view")
+    ctx.attempt("R12.7", lambda: persistent_state(ctx, "R12.7", [f_ for f_ in (ctx.repo.func(q_, required=False) for q_ in ('SystemGro.__init__', 'SystemGro.__getitem__', 'SystemGro.__iter__', 'GroFile.seek_atom', 'GroFile.readline')) if f_ is not None], "the coordinate-file view"))
 
 
 def r12_6(ctx: Ctx, rule="R12.6"):
